@@ -14,6 +14,8 @@ pub const REMOVE: u64 = 1 << 63;
 /// (SWAP | start): replace the region starting there by a fresh region of the same range in one
 /// locked update - the layout stays the same, the memory behind it changes
 pub const SWAP: u64 = 1 << 62;
+/// a round that takes the update lock, looks at the map and gives the lock back without replacing
+const ABANDON: u64 = 1 << 60;
 type Atomic = GuestMemoryAtomic<Mem>;
 
 fn region(start: u64, tag: u8) -> Arc<GuestRegionMmap<()>> {
@@ -116,6 +118,10 @@ fn execute(cfg: &Config, ex: &mut Explorer) -> ExecResult {
     for ups in &cfg.updaters {
         let mut regs: Vec<(Option<u64>, Option<Arc<GuestRegionMmap<()>>>)> = Vec::new(); // (remove this start, insert this region)
         for s in ups {
+            if s & ABANDON != 0 {
+                regs.push((None, None));
+                continue;
+            }
             if s & REMOVE != 0 {
                 removed.insert(s & !REMOVE);
                 final_tag.remove(&(s & !REMOVE));
@@ -137,6 +143,12 @@ fn execute(cfg: &Config, ex: &mut Explorer) -> ExecResult {
                 let guard = a.lock().unwrap();
                 let cur = a.memory();
                 step("derive-new-map");
+                if r.0.is_none() && r.1.is_none() {
+                    // an update that is given up: the lock goes back, nothing is published
+                    drop(cur);
+                    drop(guard);
+                    continue;
+                }
                 let mut new: Option<Mem> = None;
                 if let Some(start) = r.0 {
                     new = Some(cur.remove_region(GuestAddress(start), 4096).unwrap().0);
@@ -675,7 +687,7 @@ fn trivial_address_spaces(ctx: &Ctx) {
 
 pub fn run(tier: Tier, replay: Option<String>) -> i32 {
     let ctx = crate::new_ctx("C11", tier, "model_checking", &replay);
-    ctx.set_rule("E3: stateless DFS over the interleavings, within the stated preemption bound, of real updater threads (lock; memory(); derive a map with one more / one less region or with one region swapped for a fresh one of the same range; replace; unlock) and reader threads (memory(); read regions and tags; clone the snapshot; into_inner; drop; re-read; drop) on one GuestMemoryAtomic<GuestMemoryMmap> shared through cloned handles, or (three configurations) through one handle that all threads use by reference; scheduling points: every ArcSwap load/store and Mutex lock/unlock of the crate (hook H3, blocking on the update mutex modelled) plus the harness steps between a reader's operations. Oracle per schedule: every snapshot is exactly one published map (maps compared as lists of (start, region instance)), readable (tags through the mappings), unchanged when re-read; snapshots taken after a replacement completed show it; the final map contains every updater's region; no deadlock; after all handles are dropped every region was munmap'ed exactly once (interposed log). E1: BFS over all sequential histories up to the stated depth of {clone handle, drop handle, snapshot, clone snapshot, into_inner, drop snapshot/owned, an updater that panics while it holds the update lock (later updaters recover the guard from the PoisonError), every third update of a history carried out from a destructor while a panic unwinds, lock+replace with insert/remove (down to the empty map, published as derived or as GuestMemoryMmap::new())/swap (same range, fresh region)}, state = (current map, held snapshots, owned maps, handles), with the owner-graph invariant mapped <=> reachable checked against the interposed munmap log in every state.");
+    ctx.set_rule("E3: stateless DFS over the interleavings, within the stated preemption bound, of real updater threads (lock; memory(); derive a map with one more / one less region or with one region swapped for a fresh one of the same range; replace; unlock - or give the update up: lock; memory(); unlock) and reader threads (memory(); read regions and tags; clone the snapshot; into_inner; drop; re-read; drop) on one GuestMemoryAtomic<GuestMemoryMmap> shared through cloned handles, or (three configurations) through one handle that all threads use by reference; scheduling points: every ArcSwap load/store and Mutex lock/unlock of the crate (hook H3, blocking on the update mutex modelled) plus the harness steps between a reader's operations. Oracle per schedule: every snapshot is exactly one published map (maps compared as lists of (start, region instance)), readable (tags through the mappings), unchanged when re-read; snapshots taken after a replacement completed show it; the final map contains every updater's region; no deadlock; after all handles are dropped every region was munmap'ed exactly once (interposed log). E1: BFS over all sequential histories up to the stated depth of {clone handle, drop handle, snapshot, clone snapshot, into_inner, drop snapshot/owned, an updater that panics while it holds the update lock (later updaters recover the guard from the PoisonError), every third update of a history carried out from a destructor while a panic unwinds, lock+replace with insert/remove (down to the empty map, published as derived or as GuestMemoryMmap::new())/swap (same range, fresh region)}, state = (current map, held snapshots, owned maps, handles), with the owner-graph invariant mapped <=> reachable checked against the interposed munmap log in every state.");
     ctx.assume("ArcSwap::load/store are treated as atomic steps (arc_swap internals execute for real but are not interleaved internally); SC");
     if let Some(r) = ctx.replay_of.clone() {
         let c = &r["case"];
@@ -703,6 +715,10 @@ pub fn run(tier: Tier, replay: Option<String>) -> i32 {
         Config { name: "2-updaters-one-shared-handle", updaters: vec![vec![0x20_0000], vec![0x30_0000]], readers: 0, bound: None, share_handle: true },
         Config { name: "2-updaters-1-reader-one-shared-handle", updaters: vec![vec![0x20_0000], vec![0x30_0000]], readers: 1, bound: Some(if thorough { 4 } else { 2 }), share_handle: true },
         Config { name: "updater-2-rounds-vs-updater-one-shared-handle", updaters: vec![vec![0x20_0000, REMOVE | 0x10_0000], vec![0x30_0000]], readers: 0, bound: Some(if thorough { 5 } else { 3 }), share_handle: true },
+        // an updater that gives an update up (lock, look, unlock) and then updates, against another updater
+        Config { name: "abandoned-update-then-update-vs-updater", updaters: vec![vec![ABANDON, 0x20_0000], vec![0x30_0000]], readers: 0, bound: None, share_handle: false },
+        Config { name: "abandoned-update-then-update-vs-updater-one-shared-handle", updaters: vec![vec![ABANDON, 0x20_0000], vec![0x30_0000]], readers: 0, bound: None, share_handle: true },
+        Config { name: "abandoned-update-then-update-vs-updater-vs-reader", updaters: vec![vec![ABANDON, 0x20_0000], vec![0x30_0000]], readers: 1, bound: Some(if thorough { 4 } else { 2 }), share_handle: false },
         // the published map passes through the empty map
         Config { name: "remove-only-region-then-insert-vs-reader", updaters: vec![vec![REMOVE | 0x10_0000, 0x20_0000]], readers: 1, bound: if thorough { None } else { Some(3) }, share_handle: false },
         Config { name: "remover-to-empty-vs-inserter-vs-reader", updaters: vec![vec![REMOVE | 0x10_0000], vec![0x30_0000]], readers: 1, bound: Some(if thorough { 4 } else { 2 }), share_handle: true },
